@@ -44,9 +44,9 @@ CT_BIN = [
     ("image/jpg", ["jpg", "jpeg"]),
     ("image/gif", ["gif", "png"]),
     ("video/mp4", ["mp4", "bin"]),
-    ("application/vnd.openxmlformats-officedocument.presentationml.printerSettings", ["bin"]),
-    ("application/vnd.openxmlformats-officedocument.spreadsheetml.printerSettings", ["bin"]),
-    ("application/vnd.openxmlformats-officedocument.wordprocessingml.printerSettings", ["bin"]),
+    ("application/vnd.openxmlformats-officedocument.presentationml.printerSettings", ["bin", "BIN", "Bin"]),
+    ("application/vnd.openxmlformats-officedocument.spreadsheetml.printerSettings", ["bin", "BIN"]),
+    ("application/vnd.openxmlformats-officedocument.wordprocessingml.printerSettings", ["bin", "bIN"]),
     ("application/x-unknown-thing", ["bin", "xyz", "", "tar.gz"]),
     ("application/vnd.ms-office.vbaProject", ["bin"]),
     ("application/vnd.openxmlformats-officedocument.spreadsheetml.sheet", ["xlsx", "bin"]),
